@@ -177,6 +177,12 @@ def build_expression(
                 # a whole nested (unevaluated) sum that contains pi for a multiple of pi:
                 # cos(x + pi + 1), i.e cos((x + pi) + 1), became -cos(1). Flatten the sum.
                 args = [flatten_sum(sp.sympify(arg)) for arg in args]
+            if funcname == "exp":
+                # exp(x + c) is split into exp(c) * exp(x) when it is created, two factors
+                # that over- or underflow on their own: exp(x + 800.0) became inf*exp(x)
+                args = [sp.sympify(arg) for arg in args]
+                if not all(arg.is_number for arg in args):
+                    return sp.exp(*args, evaluate=False)
             return getattr(sp, funcname)(*args)
 
         if tree.data == "logicalfunc":
